@@ -1,0 +1,131 @@
+//! Observation hooks for external runtime monitors.
+//!
+//! This module only exists with the cargo feature `verif_hooks` (off by default).
+//! It offers a thread-local event sink and a thread-local step counter with a budget.
+//! Neither changes the control flow of the library: sinks are observers and the only
+//! effect of the step counter is a typed panic ([`StepBudgetExceeded`]) once a monitor-chosen
+//! budget of logical steps is exhausted.
+
+use std::cell::{Cell, RefCell};
+
+/// Events emitted by the library at interesting points.
+#[derive(Debug, Clone, Copy, PartialEq, Eq)]
+pub enum Event {
+    /// A new node with the given index has been appended to the node table of a `Bdd`
+    /// (emitted after the node has been sent to an attached channel).
+    NodeCreated {
+        /// Index of the new node
+        index: usize,
+    },
+    /// Top of the nogood-learning loop.
+    LoopTop {
+        /// length of the nogood stack
+        stack_len: usize,
+        /// number of entries on the stack which are marked as choices
+        choice_entries: usize,
+        /// length of the interpretation history
+        history_len: usize,
+    },
+    /// The heuristic has chosen a statement and a value.
+    Choice {
+        /// chosen statement
+        var: usize,
+        /// chosen value
+        value: bool,
+        /// `true` if the chosen statement has already been decided in the current interpretation
+        was_decided: bool,
+    },
+    /// The heuristic did not return a choice.
+    NoChoice,
+    /// Backtracking: `learned` nogoods have been moved from the stack to the store.
+    Backtrack {
+        /// number of nogoods added to the store
+        learned: usize,
+        /// `true` if a choice point has been found
+        choice_found: bool,
+    },
+    /// The closure of the nogood store reported an inconsistency.
+    NogoodConflict,
+    /// The interpretation contradicts an acceptance condition.
+    AcConflict,
+    /// A two valued interpretation has been reached in the nogood-learning loop.
+    TwoValued {
+        /// result of the (stability) check
+        accepted: bool,
+    },
+    /// A branching decision of the counting-guided search.
+    CountBranch {
+        /// recursion depth
+        depth: usize,
+        /// statement chosen for branching
+        var: usize,
+        /// `true` if models are enumerated, `false` for counter-models
+        goal: bool,
+        /// number of enumerated cubes
+        cubes: usize,
+    },
+    /// One cube of the counting-guided search has been processed.
+    CountCube {
+        /// position of the cube in the enumeration
+        position: usize,
+        /// `true` if the cube is consistent with the current interpretation
+        consistent: bool,
+    },
+}
+
+/// Payload of the panic which is raised by [`tick`] if the step budget is exceeded.
+#[derive(Debug, Clone, Copy, PartialEq, Eq)]
+pub struct StepBudgetExceeded {
+    /// number of steps taken
+    pub steps: u64,
+}
+
+type Sink = Box<dyn FnMut(&Event)>;
+
+thread_local! {
+    static SINK: RefCell<Option<Sink>> = RefCell::new(None);
+    static STEPS: Cell<u64> = Cell::new(0);
+    static BUDGET: Cell<u64> = Cell::new(u64::MAX);
+}
+
+/// Installs (or removes) the event sink of the current thread and returns the previous one.
+pub fn set_sink(sink: Option<Sink>) -> Option<Sink> {
+    SINK.with(|s| std::mem::replace(&mut *s.borrow_mut(), sink))
+}
+
+/// Hands the event to the sink of the current thread (if any).
+/// Events emitted while the sink itself is running are dropped.
+pub fn emit(event: Event) {
+    SINK.with(|s| {
+        if let Ok(mut guard) = s.try_borrow_mut() {
+            if let Some(sink) = guard.as_mut() {
+                sink(&event);
+            }
+        }
+    });
+}
+
+/// Sets the step budget of the current thread and resets the step counter.
+pub fn set_budget(budget: u64) {
+    BUDGET.with(|b| b.set(budget));
+    STEPS.with(|s| s.set(0));
+}
+
+/// Returns the number of steps counted on the current thread since the last [`set_budget`].
+pub fn steps() -> u64 {
+    STEPS.with(|s| s.get())
+}
+
+/// Counts one logical step; panics with [`StepBudgetExceeded`] if the budget is exhausted.
+pub fn tick() {
+    let steps = STEPS.with(|s| {
+        let val = s.get().saturating_add(1);
+        s.set(val);
+        val
+    });
+    if steps > BUDGET.with(|b| b.get()) {
+        // disarm, so unwinding code cannot panic a second time
+        BUDGET.with(|b| b.set(u64::MAX));
+        std::panic::panic_any(StepBudgetExceeded { steps });
+    }
+}
